@@ -982,14 +982,20 @@ func ExtractMeasuredDataCSV(scannerObserv *bufio.Scanner, g *GlobalVarsMain, Fid
 				KONZ[1] = ValAsFloat(tokens[headers[nm36]], obs, tokens[headers[nm36]])
 				KONZ[2] = ValAsFloat(tokens[headers[nm69]], obs, tokens[headers[nm69]])
 
-				if val, err := TryValAsFloat(tokens[headers[nm912]]); err == nil {
-					KONZ[3] = val
+				if col, ok := headers[nm912]; ok {
+					if val, err := TryValAsFloat(tokens[col]); err == nil {
+						KONZ[3] = val
+					}
 				}
-				if val, err := TryValAsFloat(tokens[headers[nm1215]]); err == nil {
-					KONZ[4] = val
+				if col, ok := headers[nm1215]; ok {
+					if val, err := TryValAsFloat(tokens[col]); err == nil {
+						KONZ[4] = val
+					}
 				}
-				if val, err := TryValAsFloat(tokens[headers[nm1520]]); err == nil {
-					KONZ[5] = val
+				if col, ok := headers[nm1520]; ok {
+					if val, err := TryValAsFloat(tokens[col]); err == nil {
+						KONZ[5] = val
+					}
 				}
 
 				Jstr = tokens[headers[m]]
@@ -997,14 +1003,20 @@ func ExtractMeasuredDataCSV(scannerObserv *bufio.Scanner, g *GlobalVarsMain, Fid
 				winit[1] = ValAsFloat(tokens[headers[w36]], obs, tokens[headers[w36]])
 				winit[2] = ValAsFloat(tokens[headers[w69]], obs, tokens[headers[w69]])
 
-				if val, err := TryValAsFloat(tokens[headers[w912]]); err == nil {
-					winit[3] = val
+				if col, ok := headers[w912]; ok {
+					if val, err := TryValAsFloat(tokens[col]); err == nil {
+						winit[3] = val
+					}
 				}
-				if val, err := TryValAsFloat(tokens[headers[w1215]]); err == nil {
-					winit[4] = val
+				if col, ok := headers[w1215]; ok {
+					if val, err := TryValAsFloat(tokens[col]); err == nil {
+						winit[4] = val
+					}
 				}
-				if val, err := TryValAsFloat(tokens[headers[w1520]]); err == nil {
-					winit[5] = val
+				if col, ok := headers[w1520]; ok {
+					if val, err := TryValAsFloat(tokens[col]); err == nil {
+						winit[5] = val
+					}
 				}
 				if g.MES[0] != "------" {
 					for zi := 1; zi <= g.N; zi++ {
